@@ -42,6 +42,8 @@ class Case:
             out.append("FAULT %s %s %s %d" % (f[0], f[1], enc(f[2]), f[3]))
         if self.crash >= 0:
             out.append("CRASH %d" % self.crash)
+        if self.meta.get("pause"):
+            out.append("PAUSE %d %d THEN %d" % self.meta["pause"])
         for o in self.ops:
             out.append("OP " + " ".join([o[0]] + [enc(a) if isinstance(a, bytes) else str(a) for a in o[1:]]))
         out.append("END")
@@ -135,6 +137,8 @@ def parse_output(path):
         elif line.startswith("M "):
             f = line.split(" ", 2)
             cur["M"].setdefault(f[1], []).append(f[2])
+        elif line.startswith("P "):
+            cur["P"] = dict(kv.split("=") for kv in line.split(" ")[3:])
         elif line.startswith("X "):
             f = line.split(" ", 2)
             cur["X"][int(f[1])] = f[2]
